@@ -65,7 +65,7 @@ def run(pid, tier, args):
             if r.startswith("fail syntax"):
                 skipped += 1   # the text does not lex to the capture's tokens: not a conversion case
                 continue
-            if c["variant"] == "slice" and want is not None:
+            if c["variant"] in ("slice", "slicegrp") and want is not None:
                 seven = {"float32": "f40e00000", "float64": "f401c000000000000"}.get(c["kind"], "7")
                 want = "[%s,%s]" % (seven, want)
             if want is None:
